@@ -62,7 +62,7 @@ pub fn pool(clauses: &[String]) -> Vec<String> {
 }
 
 /// rules (configuration keys) that produce a lint on `clause` when enabled alone; cached per process
-fn firing_rules(clause: &str) -> Vec<String> {
+pub fn firing_rules(clause: &str) -> Vec<String> {
     use std::collections::HashMap;
     use std::sync::{Mutex, OnceLock};
     static CACHE: OnceLock<Mutex<HashMap<String, Vec<String>>>> = OnceLock::new();
